@@ -707,7 +707,7 @@ pub fn run(env: &Env) -> i32 {
     let known = crate::report::KnownFindings::load();
     let runner = Runner::new(&env.bin, &env.shim, &env.scratch, 99);
     for v in violations.iter_mut() {
-        if known.matches(v).is_some() {
+        if known.matches(v).is_some() || std::env::var("VERIF_NOMIN").is_ok() {
             continue;
         }
         let Ok(case) = serde_json::from_value::<Case>(v.replay["case"].clone()) else { continue };
